@@ -1,2 +1,3 @@
 import BufModel.Path
 import BufModel.Bucket
+import BufModel.Faults
